@@ -21,7 +21,8 @@ def post(cov, cases, recs):
     carrying the wires, on the cases whose modulus is that backend's"""
     sink = []; tot = 0
     for name, p in REAL:
-        sub = [c for c in cases if c["cfg"]["p"] == p][:150]
+        mine = [c for c in cases if c["cfg"]["p"] == p]
+        sub = [c for c in mine if str(c.get("matrix", "")).startswith("cancellation")] + [c for c in mine if not str(c.get("matrix", "")).startswith("cancellation")][:150]
         if not sub: continue
         try:
             rr = progs.run_impl_cases(sub, real_backend=name)
@@ -37,7 +38,7 @@ def post(cov, cases, recs):
 
 
 def run(tier, seed):
-    pending = matrixcases.bigdiv_cases() + matrixcases.hash_then_use() + matrixcases.suppressed_operator_cases(tier)
+    pending = matrixcases.bigdiv_cases() + matrixcases.hash_then_use() + matrixcases.suppressed_operator_cases(tier) + matrixcases.cancellation_cases()
     return tracecheck.run(PID, tier, seed, PROFILE, oracle, n_quick=len(pending) + 450, n_thorough=len(pending) + 6000, mask=1 | 4 | 32, mutation_oracle=True, post=post,
                           casegen=matrixcases.with_pending(pending, PROFILE),
                           extra_assumptions=["C04_coherent_on_final_witness_partial assumes scoped_cmds (computed and checked true on every case of this run)",
